@@ -19,7 +19,15 @@ func (e *Engine) loadContracts(paths ...string) error {
 		for _, d := range defs {
 			e.defs[d.Name] = d
 		}
+		for _, cc := range cs {
+			for k, v := range cc.Frames {
+				e.frames[k] = v
+			}
+		}
 		for _, c := range cs {
+			if strings.HasPrefix(c.Name, "frame ") {
+				continue
+			}
 			if c.Trusted {
 				if _, dup := e.ifaceSpecs[c.Name]; dup {
 					return fmt.Errorf("%s:%d: duplicate spec for %s", p, c.Line, c.Name)
@@ -139,6 +147,7 @@ func (e *Engine) verifyFunction(name string) error {
 		if c != nil {
 			fr.isThread = c.Thread
 			sc := st.specCtx(fr, name+" requires")
+			sc.grant = true
 			for _, r := range c.Requires {
 				st.assume(e.evalClause(sc, r))
 			}
@@ -149,7 +158,7 @@ func (e *Engine) verifyFunction(name string) error {
 		}
 		st.onFunctionEntry(fr)
 		// vacuity: the precondition must be satisfiable
-		st.cover("pre", e.curProps)
+		st.cover("pre", e.curProps, token.NoPos)
 		e.run(st)
 	}()
 	return nil
@@ -161,7 +170,7 @@ func (st *State) checkPost(fr *Frame, res []Val, pos token.Pos) {
 	c := fr.contract
 	st.onFunctionExit(fr, pos)
 	blk := fr.block.Index
-	st.cover(fmt.Sprintf("return@b%d", blk), e.curProps)
+	st.cover(fmt.Sprintf("return@b%d", blk), e.curProps, pos)
 	if c == nil {
 		return
 	}
@@ -214,9 +223,15 @@ func (st *State) modularCall(fr *Frame, in ssa.Instruction, fn *ssa.Function, c 
 		st.oblige("pre", name+"."+label, mergeProps(props, e.curProps), e.evalClause(sc, r), pos)
 	}
 	st.onModularCall(fr, fn, c, args, pos)
+	preAlloc := st.alloc()
 	st.bumpAlloc()
-	for _, m := range c.Modifies {
+	for _, m := range e.expandFrames(c.Modifies) {
 		if m == allocName {
+			continue
+		}
+		if strings.HasPrefix(m, "new:") {
+			// only objects allocated by the callee may change under this pattern
+			st.havocNewOnly(strings.TrimPrefix(m, "new:"), preAlloc)
 			continue
 		}
 		st.havoc(m)
@@ -234,12 +249,68 @@ func (st *State) modularCall(fr *Frame, in ssa.Instruction, fn *ssa.Function, c 
 	for _, en := range c.Ensures {
 		st.assume(e.evalClause(sc2, en))
 	}
+	// contracted callees appear in the ghost call log too (kind = short function name)
+	kind := fn.Name()
+	cntName := "G|cnt|" + kind
+	e.ghostInit[cntName] = "(>= $ 0)"
+	cn := st.arr(cntName, "Int")
+	shift := 1
+	if fn.Signature.Recv() != nil {
+		shift = 0 // the receiver is argument 0, parameters start at 1 (as for interface call-outs)
+	}
+	for i, a := range args {
+		for j, cp := range e.flatten(a.T) {
+			nm := fmt.Sprintf("G|arg|%s|%d%s", kind, i+shift, cp.Path)
+			arr := st.arr(nm, arrSort(cp.Sort))
+			st.setArr(nm, arrSort(cp.Sort), store(arr, cn, a.C[j]))
+		}
+	}
+	for i, r := range parts {
+		for j, cp := range e.flatten(r.T) {
+			nm := fmt.Sprintf("G|res|%s|%d%s", kind, i, cp.Path)
+			arr := st.arr(nm, arrSort(cp.Sort))
+			st.setArr(nm, arrSort(cp.Sort), store(arr, cn, r.C[j]))
+		}
+	}
+	st.setArr(cntName, "Int", fmt.Sprintf("(+ %s 1)", cn))
+	if _, ok := e.kindSigs[kind]; !ok {
+		e.kindSigs[kind] = fn.Signature
+	}
 	if in != nil {
 		if sv, ok := in.(ssa.Value); ok {
 			st.setResult(fr, in, packResults(e, sv.Type(), parts))
 		}
 	}
 	return true
+}
+
+// expandFrames replaces @name by the patterns of a declared frame.
+func (e *Engine) expandFrames(ms []string) []string {
+	var out []string
+	for _, m := range ms {
+		if strings.HasPrefix(m, "@") {
+			out = append(out, e.expandFrames(e.frames[m[1:]])...)
+			continue
+		}
+		out = append(out, m)
+	}
+	return out
+}
+
+// havocNewOnly: arrays matching the pattern keep their content for every object allocated before the call.
+func (st *State) havocNewOnly(pat, preAlloc string) {
+	type kept struct{ name, sort, old string }
+	var ks []kept
+	for name, sort := range st.e.arrSorts {
+		if matchPat(pat, name) {
+			ks = append(ks, kept{name, sort, st.arr(name, sort)})
+		}
+	}
+	st.havoc(pat)
+	for _, k := range ks {
+		nw := st.arr(k.name, k.sort)
+		st.assume(fmt.Sprintf("(forall ((b Int)) (! (=> (select %s b) (= (select %s b) (select %s b))) :pattern ((select %s b))))", preAlloc, nw, k.old, nw))
+	}
 }
 
 func mergeProps(a, b []string) []string {
@@ -255,10 +326,13 @@ func mergeProps(a, b []string) []string {
 }
 
 // applyCallOutSpec assumes the declared contract of an interface method / callback kind.
-func (st *State) applyCallOutSpec(fr *Frame, c *Contract, kind string, args []Val, res []Val, pos token.Pos) {
+func (st *State) applyCallOutSpec(fr *Frame, c *Contract, kind string, args []Val, res []Val, pre *Snapshot, pos token.Pos) {
 	e := st.e
 	sig := e.kindSigs[kind]
 	vars := map[string]Val{}
+	for k, v := range fr.specVars {
+		vars[k] = v // the spec of a callback may mention the variables of the function that calls it
+	}
 	if sig != nil {
 		for i := 0; i < sig.Params().Len() && i+1 < len(args); i++ {
 			if n := sig.Params().At(i).Name(); n != "" {
@@ -273,7 +347,7 @@ func (st *State) applyCallOutSpec(fr *Frame, c *Contract, kind string, args []Va
 	if len(res) == 1 {
 		vars["result"] = res[0]
 	}
-	sc := &SpecCtx{st: st, vars: vars, old: st.snapshot(), where: "spec of " + kind}
+	sc := &SpecCtx{st: st, vars: vars, old: pre, where: "spec of " + kind}
 	for _, en := range c.Ensures {
 		st.assume(e.evalClause(sc, en))
 	}
@@ -313,6 +387,16 @@ func (st *State) debugRef(fr *Frame, x *ssa.DebugRef) {
 	}
 	if strings.HasPrefix(id.Name, "$") {
 		return
+	}
+	for _, fv := range fr.fn.FreeVars {
+		if fv.Name() == id.Name {
+			return // in contracts a captured variable keeps denoting its cell
+		}
+	}
+	for _, p := range fr.fn.Params {
+		if p.Name() == id.Name {
+			return // parameters denote their entry values
+		}
 	}
 	fr.specVars[id.Name] = v
 	delete(fr.specAddrs, id.Name)
